@@ -115,6 +115,15 @@ pub struct TWA([El; 3], PhantomData<u8>);
 #[repr(transparent)]
 pub struct TWZ([Zel; 3]);
 
+/// GenericArray has no DecodeWithMemTracking marker of its own: a forwarding newtype carries it
+pub struct GA<T, N: generic_array::ArrayLength<T>>(pub generic_array::GenericArray<T, N>);
+impl<T: Decode, N: generic_array::ArrayLength<T>> Decode for GA<T, N> {
+	fn decode<I: Input>(input: &mut I) -> Result<Self, Error> {
+		generic_array::GenericArray::<T, N>::decode(input).map(GA)
+	}
+}
+impl<T: DecodeWithMemTracking, N: generic_array::ArrayLength<T>> DecodeWithMemTracking for GA<T, N> {}
+
 struct Cx {
 	cases: Cases,
 	oracle: Oracle,
@@ -198,6 +207,7 @@ fn run_one<T: DecodeWithMemTracking>(cx: &mut Cx, tname: &str, prefix: &[u8], sl
 	cx.oracle.check(cs == ds || dup, "element-leaked", || rp.clone());
 	cx.oracle.check(zc == zd, if zd > zc { "element-dropped-twice" } else { "element-leaked" }, || rp.clone());
 	cx.oracle.check(u.leaked == 0, "heap-block-leaked-or-double-freed", || format!("{rp}\tlive_delta={}", u.leaked));
+	cx.oracle.check(u.zero_sized_frees == 0, "free-of-a-block-never-allocated", || format!("{rp}\tzero_sized_frees={}", u.zero_sized_frees));
 	// model case: the ledger of the implementation for this container shape
 	let built = if kind == Kind::None || at >= slots { slots } else { at };
 	cx.oracle.check(c.len() as usize + zc as usize == built, "constructed-count", || rp.clone());
@@ -325,6 +335,9 @@ pub fn run(args: &Args) {
 	all_failures::<Box<TWA>>(cx_, "Box<transparent TWA([El;3],PhantomData)>", &[], 3);
 	all_failures::<Box<TWZ>>(cx_, "Box<transparent TWZ([Zel;3])>", &[], 3);
 	all_failures::<Box<DS>>(cx_, "Box<derived struct>", &[], 3);
+	all_failures::<GA<El, generic_array::typenum::U4>>(cx_, "GenericArray<El,U4>", &[], 4);
+	all_failures::<Box<GA<El, generic_array::typenum::U3>>>(cx_, "Box<GenericArray<El,U3>>", &[], 3);
+	all_failures::<GA<Zel, generic_array::typenum::U3>>(cx_, "GenericArray<Zel,U3>", &[], 3);
 	// growing collections (count prefix = slots)
 	let ns: &[usize] = if args.thorough { &[0, 1, 2, 3, 5, 8, 13, 40] } else { &[0, 1, 2, 3, 6] };
 	for &n in ns {
@@ -447,7 +460,7 @@ pub fn run(args: &Args) {
 			});
 		}
 	}
-	let rule = "scripted element types (a 4-byte element and a zero-sized element, both with destructors that log into a ledger): for every container shape ([T;N], Box<[T;N]>, Rc/Arc, [Box<T>;N], nested arrays, Box/Rc/Arc of a value, Option, Result, tuples, derived struct / enum, repr(transparent) newtypes incl. through Box and arrays, Vec, VecDeque, LinkedList, BTreeSet, BTreeMap, Vec<Box<T>>, Box<Vec<T>>, Vec<[T;2]>) every failure position 0..N x {input exhausted, malformed element, limit error from on_before_alloc_mem under decode_with_mem_limit, panic in the element decoder} plus the all-success run, plus the all-success script under every memory limit 0..=min(U,96) (U, U-1, U/2 beyond) so that each of the container's own allocation announcements is the failing one; oracle: each constructed element dropped exactly once, none dropped twice or unconstructed, live heap bytes back to the baseline, expected outcome; case = (slots, failure position, kind, #constructed, #dropped) against the ledger model";
+	let rule = "scripted element types (a 4-byte element and a zero-sized element, both with destructors that log into a ledger): for every container shape ([T;N], Box<[T;N]>, Rc/Arc, [Box<T>;N], nested arrays, Box/Rc/Arc of a value, Option, Result, tuples, derived struct / enum, repr(transparent) newtypes incl. through Box and arrays, Vec, VecDeque, LinkedList, BTreeSet, BTreeMap, Vec<Box<T>>, Box<Vec<T>>, Vec<[T;2]>, GenericArray<T,N>) every failure position 0..N x {input exhausted, malformed element, limit error from on_before_alloc_mem under decode_with_mem_limit, panic in the element decoder} plus the all-success run, plus the all-success script under every memory limit 0..=min(U,96) (U, U-1, U/2 beyond) so that each of the container's own allocation announcements is the failing one; oracle: each constructed element dropped exactly once, none dropped twice or unconstructed, live heap bytes back to the baseline, expected outcome; case = (slots, failure position, kind, #constructed, #dropped) against the ledger model";
 	cx.cases.write(&args.out, "c10", args.shards);
 	cx.oracle.write(&args.out);
 	cx.stats.write(&args.out, cx.cases.len(), cx.cases.nontrivial, cx.cases.dups, cx.oracle.checks, rule);
